@@ -210,10 +210,12 @@ func checkC19(w *World, r *Report) {
 			// the proxy wraps the closer made from the caller's value and this bar
 			okWrap := false
 			var walk func(v ssa.Value, d int)
+			seenW := map[ssa.Value]bool{}
 			walk = func(v ssa.Value, d int) {
-				if d > 6 {
+				if d > 40 || seenW[v] || okWrap {
 					return
 				}
+				seenW[v] = true
 				if c, ok := v.(*ssa.Call); ok && c.Call.StaticCallee() != nil && strings.HasPrefix(c.Call.StaticCallee().Name(), "to") && c.Call.Args[0] == ssa.Value(fn.Params[0]) {
 					okWrap = true
 				}
@@ -226,18 +228,23 @@ func checkC19(w *World, r *Report) {
 				}
 				if ld, ok := v.(*ssa.UnOp); ok {
 					if al, ok := ld.X.(*ssa.Alloc); ok {
-						for _, ref := range *al.Referrers() {
-							if fa, ok := ref.(*ssa.FieldAddr); ok {
-								for _, r2 := range *fa.Referrers() {
-									if st, ok := r2.(*ssa.Store); ok {
-										walk(st.Val, d+1)
+						var stores func(addr ssa.Value, dd int)
+						stores = func(addr ssa.Value, dd int) {
+							if dd > 6 || addr.Referrers() == nil {
+								return
+							}
+							for _, ref := range *addr.Referrers() {
+								switch x := ref.(type) {
+								case *ssa.FieldAddr:
+									stores(x, dd+1)
+								case *ssa.Store:
+									if x.Addr == addr {
+										walk(x.Val, d+1)
 									}
 								}
 							}
-							if st, ok := ref.(*ssa.Store); ok && st.Addr == al {
-								walk(st.Val, d+1)
-							}
 						}
+						stores(al, 0)
 					}
 				}
 			}
@@ -297,7 +304,8 @@ func checkC19(w *World, r *Report) {
 		r.Check(len(sel.Index()) > 1 && isIface && viaIface, "C19.P-CLOSE", construct, w.pos(nt.Obj().Pos()), "promoted from the embedded ReadCloser/WriteCloser", "Close is declared on the proxy type instead of being forwarded to the wrapped value")
 	}
 	r.Floor("C19.P-CLOSE", 8, "proxy types")
-	// toReadCloser / toWriteCloser / toNopWriteCloser
+	// toReadCloser / toWriteCloser (with whatever helpers they use, inlined): the argument itself when it
+	// already closes; otherwise a closer around it that offers ReadFrom exactly when the argument does
 	for _, spec := range []struct{ name, iface string }{{"mpb.toReadCloser", "io.ReadCloser"}, {"mpb.toWriteCloser", "io.WriteCloser"}} {
 		fn := w.Func(spec.name)
 		if fn == nil {
@@ -306,59 +314,68 @@ func checkC19(w *World, r *Report) {
 		}
 		bad := ""
 		sawSelf, sawWrap := false, false
-		w.enumPaths(fn, pathOpts{InlineDepth: 0}, func(p *Path) {
-			if p.Exit != "return" || len(p.Ret) != 1 {
+		arg := ssa.Value(fn.Params[0])
+		w.enumPaths(fn, pathOpts{InlineDepth: 2, Inline: func(_ ssa.CallInstruction, c *ssa.Function) bool { return c.Pkg == w.Mpb }}, func(p *Path) {
+			if bad != "" || p.Exit != "return" || len(p.Ret) != 1 {
 				return
 			}
-			rv := p.Ret[0].V
-			if ex, ok := rv.(*ssa.Extract); ok && ex.Index == 0 {
-				if ta, ok := ex.Tuple.(*ssa.TypeAssert); ok && ta.X == ssa.Value(fn.Params[0]) && typeName(ta.AssertedType) == spec.iface {
+			rv := p.Ret[0]
+			asserted := func(iface string) tri {
+				out := tri(triUnknown)
+				for _, a := range p.Atoms {
+					c := p.cmpOf(a)
+					if c.Op != token.ILLEGAL {
+						continue
+					}
+					ex, ok := c.X.V.(*ssa.Extract)
+					if !ok || ex.Index != 1 {
+						continue
+					}
+					ta, ok := ex.Tuple.(*ssa.TypeAssert)
+					if !ok || typeName(ta.AssertedType) != iface {
+						continue
+					}
+					if p.R(Val{ta.X, c.X.F, c.X.E}).V != arg {
+						continue
+					}
+					if c.Pol {
+						out = triTrue
+					} else {
+						out = triFalse
+					}
+				}
+				return out
+			}
+			if ex, ok := rv.V.(*ssa.Extract); ok && ex.Index == 0 {
+				if ta, ok := ex.Tuple.(*ssa.TypeAssert); ok && typeName(ta.AssertedType) == spec.iface && p.R(Val{ta.X, rv.F, rv.E}).V == arg {
 					sawSelf = true
-					if !p.hasBool(-1, true, func(v Val) bool {
-						e2, ok := v.V.(*ssa.Extract)
-						return ok && e2.Tuple == ex.Tuple && e2.Index == 1
-					}) {
+					if asserted(spec.iface) != triTrue {
 						bad = "the asserted value is returned without the ok atom"
 					}
 					return
 				}
 			}
-			if c, ok := rv.(*ssa.Call); ok && len(c.Call.Args) == 1 && c.Call.Args[0] == ssa.Value(fn.Params[0]) {
+			if asserted(spec.iface) != triFalse {
+				bad = "a wrapper is returned although the argument already closes (its own Close would never be called)"
+				return
+			}
+			switch x := rv.V.(type) {
+			case *ssa.Call: // io.NopCloser(r)
+				if len(x.Call.Args) == 1 && p.R(Val{x.Call.Args[0], rv.F, rv.E}).V == arg {
+					sawWrap = true
+					return
+				}
+			case *ssa.MakeInterface:
 				sawWrap = true
+				has := w.Prog.MethodSets.MethodSet(x.X.Type()).Lookup(nil, "ReadFrom") != nil
+				if has != (asserted("io.ReaderFrom") == triTrue) {
+					bad = "the no-op closer offers ReadFrom although the wrapped writer does not (or hides it although it does)"
+				}
 				return
 			}
 			bad = "returns neither the argument itself nor a no-op closer around it"
 		})
-		r.Check(bad == "" && sawSelf && sawWrap, "C19.P-CLOSER", spec.name, w.pos(fn.Pos()), "the argument itself when it closes, else a no-op closer around it", orStr(bad, "branch missing"))
-	}
-	if fn := w.Func("mpb.toNopWriteCloser"); fn != nil {
-		bad := ""
-		saw := map[bool]bool{}
-		w.enumPaths(fn, pathOpts{InlineDepth: 0}, func(p *Path) {
-			if p.Exit != "return" || len(p.Ret) != 1 {
-				return
-			}
-			mi, ok := p.Ret[0].V.(*ssa.MakeInterface)
-			if !ok {
-				bad = "does not return a concrete closer"
-				return
-			}
-			has := w.Prog.MethodSets.MethodSet(mi.X.Type()).Lookup(nil, "ReadFrom") != nil
-			asserted := false
-			for _, a := range p.Atoms {
-				c := p.cmpOf(a)
-				if ex, ok := c.X.V.(*ssa.Extract); ok && c.Op == token.ILLEGAL && ex.Index == 1 {
-					if ta, ok := ex.Tuple.(*ssa.TypeAssert); ok && typeName(ta.AssertedType) == "io.ReaderFrom" && ta.X == ssa.Value(fn.Params[0]) {
-						asserted = c.Pol
-					}
-				}
-			}
-			if has != asserted {
-				bad = "the no-op closer offers ReadFrom although the wrapped writer does not (or hides it although it does)"
-			}
-			saw[has] = true
-		})
-		r.Check(bad == "" && len(saw) == 2, "C19.P-CLOSER", "mpb.toNopWriteCloser", w.pos(fn.Pos()), "ReaderFrom preserved exactly when present", orStr(bad, "branch missing"))
+		r.Check(bad == "" && sawSelf && sawWrap, "C19.P-CLOSER", spec.name, w.pos(fn.Pos()), "the argument itself when it closes, else a no-op closer around it (ReaderFrom preserved)", orStr(bad, "branch missing"))
 	}
 	_ = n
 }
